@@ -174,6 +174,11 @@ def main(argv):
     mod = importlib.import_module(f"harness.props.{a.prop.lower()}")
     if a.replay:
         payload = json.load(open(a.replay))
+        if isinstance(payload.get("input"), dict) and payload["input"].get("input_form"):
+            from . import real
+
+            real.DEFAULT_FORM = payload["input"]["input_form"]
+            print("input form:", real.DEFAULT_FORM)
         return mod.replay(payload)
     from . import leangate
 
